@@ -1,6 +1,11 @@
 -------------------------- MODULE Trace_ChunkStore --------------------------
 (* Trace specification for PrecomputedIO (C03).                              *)
 (* kind "hist": [info (Seq of [size, chunks]), channels, lossy, events]      *)
+(*   lossy: one boolean PER SCALE (scales of one dataset may use different   *)
+(*   encodings); a written array of a narrower type that converts safely is  *)
+(*   recorded by the driver as its values in the dataset's type (the         *)
+(*   property's "identical ... every value"; the type read back is the       *)
+(*   dataset's)                                                              *)
 (*   events: [op |-> "write", s, c, res, shape, bytes]                       *)
 (*           [op |-> "read",  s, c, res, shape, dt, bytes]                   *)
 (*           [op |-> "reopen"]                                               *)
@@ -40,7 +45,7 @@ EventClause(e) ==
                ELSE IF e.shape # ExpShape(Case.channels, e.c) \/ e.shape # mem[key].shape
                     THEN "oracle:ReadShape"
                ELSE IF e.dt # mem[key].dt THEN "oracle:ReadDtype"
-               ELSE IF Case.lossy
+               ELSE IF Case.lossy[e.s]
                     THEN (IF Close(e.bytes, mem[key].bytes) THEN "ok" ELSE "oracle:JpegError")
                ELSE IF e.bytes # mem[key].bytes THEN "oracle:ReadYourWrites"
                \* the array handed out must still hold the same values at the end of the
